@@ -215,6 +215,129 @@ def norm_ty(s):
     return s.replace(" ", "")
 
 
+# ---------------------------------------------------------------------------------------------- explicit bound(...)
+EB_LET = {"Display": "", "Debug": "?", "LowerHex": "x", "UpperHex": "X", "Octal": "o", "Binary": "b", "LowerExp": "e", "UpperExp": "E",
+          "Pointer": "p"}
+EB_PRELUDE = (PRELUDE + "pub trait Mk { const NAME: &'static str; }\npub struct Qm;\nimpl Mk for Qm { const NAME: &'static str = \"qm\"; }\n")
+
+
+def eb_build(c, key):
+    """ExplicitBounds.tla case -> (item text, generic parameter list, instantiation)"""
+    D = c["D"]
+    a = re.sub(r"(?<!^)(?=[A-Z])", "_", D).lower()
+    let = EB_LET[D]
+    spec = (":" + let) if let else ""
+    tuple_form = vlib.seeded_pick(key, 5, 2) == 0 and c["shape"] != "unit"
+    fty = "T" if c["gf"] else ("&'static i32" if D == "Pointer" else "i32")
+    fields = {"unit": [], "one": [("x", fty)], "two": [("x", fty), ("y", "u8")]}[c["shape"]]
+    f0 = "_0" if tuple_form else "x"
+    is_enum = c["kind"] == "enum"
+    cont = c["bpos"] in ("container", "both")
+    var = c["bpos"] in ("variant", "both")
+    lit, args = "", []
+    if c["uses"]:
+        for flag, prm in ((cont, "Q"), (var, "R")):
+            if flag:
+                lit += "{} "
+                args.append(f"<{prm} as Mk>::NAME")
+    if c["gf"]:
+        lit += "{" + f0 + spec + "}"
+    if not lit:
+        lit = "lit"
+    litattr = f"#[{a}({vlib.rust_str(lit)}{''.join(', ' + x for x in args)})]"
+
+    def battr(prm):
+        return f"#[{a}({c['spelling']}({prm}: Mk))]"
+    params = (["T"] if c["gf"] else []) + (["U"] if c["other"] == "generic" else []) + (["Q"] if cont else []) + (["R"] if var else [])
+    inst = {"T": "&'static i32" if D == "Pointer" else "i32", "U": "&'static i32" if D == "Pointer" else "i32", "Q": "Qm", "R": "Qm"}
+    ph_ty = "core::marker::PhantomData<(" + ", ".join(p for p in params if p in ("Q", "R")) + ",)>"
+    if not is_enum:
+        fs = fields + [("ph", ph_ty)]
+        body = ("(" + ", ".join(f"pub {t}" for _, t in fs) + ");") if tuple_form else ("{ " + ", ".join(f"pub {n}: {t}" for n, t in fs) + " }")
+        attrs = [litattr, battr("Q")]
+        if not c["split"]:
+            attrs.reverse()
+        item = " ".join(attrs) + f"\npub struct S<{', '.join(params)}>" + ((" " + body) if not tuple_form else body)
+    else:
+        vb = ""
+        if fields:
+            vb = ("(" + ", ".join(t for _, t in fields) + ")") if tuple_form else (" { " + ", ".join(f"{n}: {t}" for n, t in fields) + " }")
+        vattrs = [litattr] + ([battr("R")] if var else [])
+        if not c["split"]:
+            vattrs.reverse()
+        variants = [" ".join(vattrs) + " V" + vb]
+        if c["other"] == "unit":
+            variants.append(f'#[{a}("w")] W')
+        elif c["other"] == "generic":
+            variants.append("W(U)")
+        variants.append(f'#[{a}("ph")] Ph({ph_ty})')
+        top = (battr("Q") + "\n") if cont else ""
+        item = f"{top}pub enum S<{', '.join(params)}> {{ {', '.join(variants)} }}"
+    return item, params, [inst[p] for p in params]
+
+
+def explicit_bounds_check(chk, tier, seed, replay):
+    """ExplicitBounds.tla: every `bound(...)` predicate of the item and of its variants is part of the impl, next to the inferred ones"""
+    r = vlib.run_tlc("MC_ExplicitBounds", f"MC_ExplicitBounds_{tier}", workers=4, timeout=900, xmx="2g")
+    chk.add_tlc(r, "explicit bound(...) cases")
+    if not r.ok:
+        raise vlib.ToolError(f"TLC: {r.violation}\n{r.raw_tail[-1500:]}")
+    cases = {}
+    for rec in r.cases:
+        c = rec["c"]
+        k = "bound|" + "|".join(f"{x}={c[x]}" for x in ("D", "kind", "bpos", "gf", "shape", "other", "spelling", "split", "uses"))
+        cases[k] = (c, rec["preds"])
+    if replay:
+        want = json.load(open(replay))["key"]
+        cases = {k: v for k, v in cases.items() if k == want}
+    reqs, built = [], {}
+    for k, (c, preds) in cases.items():
+        item, params, inst = eb_build(c, k)
+        built[k] = (item, params, inst)
+        reqs.append({"key": k, "derive": c["D"], "item": item.replace("pub ", ""), "tokens": False})
+    obs = vlib.run_inproc("expand", reqs)
+    for k, (c, preds) in cases.items():
+        item, params, inst = built[k]
+        o = obs[k]
+        chk.cov["evaluations"] += 1
+        if o["outcome"] != "ok":
+            chk.deviation(k, f"expansion of a type with `bound(...)`: {o['outcome']}: {o.get('msg')}", case={"item": item}, expected="Ok",
+                          observed=o, tags={"kind": "expand_" + o["outcome"]})
+            continue
+        actual = set()
+        for im in o["impls"]:
+            for w in im["where"]:
+                p = re.split(r"(?<!:):(?!:)", w, maxsplit=1)
+                if len(p) == 2:
+                    actual.add(f"{norm_ty(p[0])}: {p[1].strip().split('::')[-1].strip()}")
+        want = set(preds)
+        if want - actual:
+            chk.deviation(k, f"predicates missing from the impl: {sorted(want - actual)} (where-clause: {sorted(actual)})", case={"item": item},
+                          expected=sorted(want), observed=sorted(actual), tags={"kind": "explicit_bound_lost"})
+        extra = {x for x in actual - want if x.split(":")[0] in ("Q", "R") or x.split(": ")[1] in EB_LET}
+        if extra:
+            chk.deviation(k, f"excessive predicates on the impl: {sorted(extra)}", case={"item": item}, expected=sorted(want),
+                          observed=sorted(actual), tags={"kind": "excessive"})
+    chk.cov["traces_validated_against_impl"] += len(cases)
+    chk.cov["distinct_nontrivial"] += len(cases)
+    # rustc: the impl exists for Q = R = a type implementing Mk and no formatting trait, and the literal's use of the predicate compiles
+    keys = [k for k in cases if cases[k][0]["uses"] or vlib.seeded_pick(k, seed, 3) == 0]
+    mods = []
+    for k in keys:
+        item, params, inst = built[k]
+        D = cases[k][0]["D"]
+        mods.append((k, f"use super::*;\n#[derive(derive_more::{D})]\n{item}\n"
+                        f"pub fn run() {{ fn has<X: fmt::{D}>() {{}} has::<S<{', '.join(inst)}>>(); report({json.dumps(k)}); }}"))
+    obs2, failed, brs = vlib.run_case_crate_sharded("c04_bound", mods, nshards=4, prelude=EB_PRELUDE, features=("display", "debug"))
+    for k, _ in mods:
+        chk.cov["evaluations"] += 1
+        if k in failed:
+            chk.deviation(k, "a type whose `bound(...)` predicates cover what its literal uses does not compile: " + failed[k][0]["message"][:220],
+                          case={"item": built[k][0]}, expected="compiles", observed=failed[k][:3], tags={"kind": "explicit_bound_compile"})
+    chk.cov["traces_validated_against_impl"] += len(mods)
+    chk.notes["explicit_bound_cases"] = {"in_process": len(cases), "compiled": len(mods)}
+
+
 def run(chk, tier, seed, replay):
     chk.assumptions += ["field types: T, &'static T, W<T> (a user wrapper implementing each trait when T does), i32; up to 2 fields, "
                         "up to 1 (quick) / 2 (thorough) placeholders per literal",
@@ -326,5 +449,7 @@ def run(chk, tier, seed, replay):
         chk.cov["traces_validated_against_impl"] += len(shards[i])
     if not replay or "shape|" in json.load(open(replay))["key"]:
         shapes_check(chk, tier, seed, replay)
+    if not replay or json.load(open(replay))["key"].startswith("bound|"):
+        explicit_bounds_check(chk, tier, seed, replay)
     chk.cov["rule"] = ("derived trait x attribute level (struct, variant, Debug field attributes, enum-level default, enum-level "
                        "wrapper) x field parameter assignment x placeholder reference kinds; non-trivial = at least one bound required")
